@@ -277,9 +277,22 @@ def run(case):
                 if not a.ok:
                     ops_declined = True      # (the current tree declines tables whose key layouts differ; declining is not a wrong sum)
                     continue
+            elif op.get("zero_other") and op.get("scalar_other") is None:
+                # the other term is the all-zero table made from this one (np.zeros_like), on either side: the sum is a table of its own
+                other_vals = [0] * len(keys)
+                z_ = attempt(np.zeros_like, tb)
+                if not z_.ok:
+                    bad = "np.zeros_like(table) raised %r" % z_
+                    a = None
+                else:
+                    t2 = z_.value
+                    tags.append("add:zero-table")
+                    a = attempt(lambda: (tb + t2) if op["zero_other"] == "R" else (t2 + tb))
             else:
                 a = attempt(lambda: tb + t2)
-            if not a.ok:
+            if a is None:
+                pass
+            elif not a.ok:
                 bad = "table + table2 raised %r" % a
             else:
                 new = "d%d" % len(tables)
@@ -289,6 +302,16 @@ def run(case):
                     a2 = attempt(lambda: np.asarray(t2[allq]).tolist())
                     if not a2.ok or not all(eqval(x, y) for x, y in zip(a2.value, other_vals)):
                         bad = "table + table2 modified table2"
+                if not bad and op.get("zero_other") and keys:
+                    # ... and a write to the sum must not reach the term it was formed from (nor the other way round, checked by later steps)
+                    k0_ = keys[len(keys) // 2]
+                    newv_ = (md[k0_] if np.isfinite(md[k0_]) else 0) + 1000
+                    w_ = attempt(lambda: a.value.__setitem__(k0_ if kd is None else np.dtype(kd).type(k0_), newv_))
+                    if w_.ok:
+                        tables[new][1][k0_] = newv_
+                        bad = readback(new, step) or readback(tname, step)
+                        if bad:
+                            bad = "after a write to the sum table + zeros_like(table): " + bad
         elif name == "eq":
             vals2 = [md[k] for k in keys]
             if op["differ"] is not None:
@@ -548,6 +571,8 @@ def gen_history(rng, tier, kd="pick", style=None, mod="pick", scalar_init=None, 
                 op["other_order"] = rng.choice(["reversed", "mixed"])
             elif rng.random() < 0.6:
                 op["other_kd"] = rng.choice(["int64", "int32", "uint64", "int16", "uint8"])
+            else:
+                op["zero_other"] = rng.choice("LR")
             ntables += 1
         elif name == "eq":
             op["differ"] = None if rng.random() < 0.5 else rng.randrange(n)
